@@ -16,14 +16,29 @@ Proof.
   rewrite props_fold_add_bal. reflexivity.
 Qed.
 
+Lemma h_fold_add_bal : forall (l : list N) (x : Z) (s : state),
+  g_h (fold_left (fun acc v => add_bal acc v x) l s) = g_h s.
+Proof. induction l as [|a l IH]; intros x s; simpl; [reflexivity|]. rewrite IH. reflexivity. Qed.
+
+Lemma distribute_h : forall s e id p d s' paid bad,
+  distribute s e id p d = (s', paid, bad) -> g_h s' = g_h s.
+Proof.
+  intros s e id p d s' paid bad H. unfold distribute in H. inversion H; subst. simpl.
+  rewrite h_fold_add_bal. reflexivity.
+Qed.
+
+Lemma h_anom (c : bool) x : g_h (if c then set_anom x else x) = g_h x.
+Proof. destruct c; reflexivity. Qed.
+
 (* ---------- per-record invariant ---------- *)
 Definition PInv (p : prec) : Prop :=
   (p_status p = StFunding -> p_votes p = []) /\
-  (p_votes p <> [] -> p_store p <> SFinalized -> p_goal p <= p_total p) /\
+  (p_votes p <> [] -> p_store p <> SFinalized -> p_extra p <> 8 -> p_goal p <= p_total p) /\
   (refundable (p_outcome p) = true -> p_votes p = []) /\
-  (p_store p = SFinalized -> p_indiv p = []) /\
+  (p_store p = SFinalized \/ p_extra p = 8 -> p_indiv p = []) /\
   (p_store p = SFinalized \/ p_store p = SFinFailed -> p_votes p <> []) /\
-  (p_store p = SActive -> p_outcome p = OInProgress).
+  (p_store p = SActive -> p_outcome p = OInProgress) /\
+  (p_store p = SActive -> p_extra p = 0).
 
 Definition Inv (s : state) : Prop := forall id p, g_props s !! id = Some p -> PInv p.
 
@@ -81,7 +96,8 @@ Proof.
   destruct (g_props s !! id) eqn:E; [discriminate|].
   destruct (bal s pr - amt <? 0); [discriminate|]. inversion H; subst; clear H.
   right. exists id. eexists. split; [reflexivity|]. rewrite E. split.
-  - unfold add_funds. simpl. unfold PInv; simpl. repeat split; intros; try done. destruct H; done.
+  - unfold add_funds. simpl. unfold PInv; simpl. repeat split; intros; try done;
+      try (match goal with Hx : _ \/ _ |- _ => destruct Hx; done end).
   - unfold add_funds, rank. simpl. lia.
 Qed.
 
@@ -99,6 +115,8 @@ Lemma af_total b p f a : p_total (add_funds b p f a) = p_total p + a.
 Proof. unfold add_funds. destruct (alookup f (p_indiv p)); reflexivity. Qed.
 Lemma af_indiv b p f a : p_indiv (add_funds b p f a) = aupd f a (p_indiv p).
 Proof. unfold add_funds. destruct (alookup f (p_indiv p)); reflexivity. Qed.
+Lemma af_extra b p f a : p_extra (add_funds b p f a) = p_extra p.
+Proof. unfold add_funds. destruct (alookup f (p_indiv p)); reflexivity. Qed.
 Lemma af_vdl b p f a : p_vdl (add_funds b p f a) = p_vdl p.
 Proof. unfold add_funds. destruct (alookup f (p_indiv p)); reflexivity. Qed.
 Lemma af_rank b p f a : rank (add_funds b p f a) = rank p.
@@ -106,12 +124,12 @@ Proof. unfold rank. rewrite af_store, af_status. reflexivity. Qed.
 
 Ltac pinv HP :=
   let H1 := fresh "H1" in let H2 := fresh "H2" in let H3 := fresh "H3" in
-  let H4 := fresh "H4" in let H5 := fresh "H5" in let H6 := fresh "H6" in
-  destruct HP as (H1 & H2 & H3 & H4 & H5 & H6); unfold PInv;
-  rewrite ?af_store, ?af_status, ?af_outcome, ?af_votes, ?af_goal, ?af_total, ?af_indiv; simpl;
+  let H4 := fresh "H4" in let H5 := fresh "H5" in let H6 := fresh "H6" in let H7 := fresh "H7" in
+  destruct HP as (H1 & H2 & H3 & H4 & H5 & H6 & H7); unfold PInv;
+  rewrite ?af_store, ?af_status, ?af_outcome, ?af_votes, ?af_goal, ?af_total, ?af_indiv, ?af_extra; simpl;
   repeat split; intros;
   try solve [ congruence | discriminate | lia | intuition congruence | intuition discriminate
-            | intuition lia | exfalso; intuition congruence
+            | intuition lia | exfalso; intuition congruence | exfalso; intuition lia
             | match goal with Ha : ?st = SActive, Hb : ?st = SActive -> ?oc = OInProgress |- _ =>
                 rewrite (Hb Ha) in *; simpl in *; discriminate end ].
 
@@ -173,6 +191,8 @@ Proof.
   destruct (g_props s !! id) as [p|] eqn:E; [|discriminate].
   destruct (bool_decide (p_store p = SActive)) eqn:E1; simpl in H; [|discriminate].
   apply bool_decide_eq_true in E1.
+  destruct (bool_decide (p_status p = StVoting)); simpl in H; [|discriminate].
+  destruct (g_h s <=? p_vdl p); [discriminate|].
   inversion H; subst; clear H.
   right. exists id. eexists. split; [reflexivity|]. rewrite E. intros HP. split.
   - pinv HP.
@@ -195,6 +215,7 @@ Proof.
     inversion H; subst; clear H.
     right. exists id. eexists. split; [reflexivity|]. rewrite E. intros HP. split.
     + pinv HP. all: try (rewrite (H4 H) in El; discriminate).
+      all: try (match goal with Hx : _ \/ _ |- _ => rewrite (H4 Hx) in El; discriminate end).
       all: try (exfalso; apply H; auto).
     + unfold rank. simpl. lia.
   - destruct ((p_goal p <=? p_total p) || (g_h s <=? p_fdl p)) eqn:Ec; [discriminate|].
@@ -208,18 +229,24 @@ Proof.
     destruct (p_total p - amt <? 0); [discriminate|].
     right. exists id.
     assert (Hcommon : forall HP : PInv p,
-              p_votes p = [] /\ p_store p <> SFinalized /\ p_store p <> SFinFailed).
-    { intros (H1 & H2 & H3 & H4 & H5 & H6).
+              p_votes p = [] /\ p_store p <> SFinalized /\ p_store p <> SFinFailed /\ p_extra p <> 8).
+    { intros (H1 & H2 & H3 & H4 & H5 & H6 & H7).
       assert (Hnf : p_store p <> SFinalized).
-      { intros Hs. rewrite (H4 Hs) in El. discriminate. }
+      { intros Hs. rewrite (H4 (or_introl Hs)) in El. discriminate. }
+      assert (Hne8 : p_extra p <> 8).
+      { intros Hs. rewrite (H4 (or_intror Hs)) in El. discriminate. }
       assert (Hv : p_votes p = []).
       { destruct (p_votes p) eqn:Ev; [reflexivity|]. exfalso.
-        assert (p_goal p <= p_total p) by (apply H2; [done | exact Hnf]). lia. }
+        assert (p_goal p <= p_total p) by (apply H2; [done | exact Hnf | exact Hne8]). lia. }
       repeat split; auto. intros Hs. apply H5; auto. }
+    assert (Hfin : forall st : store, st <> SFinalized -> p_extra p <> 8 ->
+              SFailed = SFinalized \/ match st with SFinalized => 8 | SFinFailed => 16 | _ => p_extra p end = 8 -> False).
+    { intros st Hst Hx [Hd|Hd]; [discriminate|]. destruct st; try congruence; lia. }
     destruct (bool_decide (p_store p = SPassed)); inversion H; subst; clear H;
       (eexists; split; [reflexivity|]; rewrite E; intros HP;
-       destruct (Hcommon HP) as (Hv & Hnf & Hnff); split;
-       [ pinv HP | unfold rank; simpl; destruct (p_store p); try congruence; destruct (p_status p); lia ]).
+       destruct (Hcommon HP) as (Hv & Hnf & Hnff & Hne8); split;
+       [ pinv HP; try (exfalso; eapply (Hfin (p_store p)); eauto)
+       | unfold rank; simpl; destruct (p_store p); try congruence; destruct (p_status p); lia ]).
 Qed.
 
 Lemma filter_none {A} (P : A -> bool) (l : list A) : (forall x, P x = false) -> List.filter P l = [].
@@ -241,9 +268,10 @@ Local Opaque distribute.
 Lemma finalize_good : forall s e id s' ev, e_keep e = [] ->
   h_finalize s e id = Some (s', ev) -> good_update s s'.
 Proof.
-  intros s e id s' ev Hk H. unfold h_finalize in H.
+  intros s e id s' ev Hk H. unfold h_finalize, fin_move in H.
   destruct (g_props s !! id) as [p|] eqn:E; [|discriminate].
-  destruct (8 <=? p_extra p). { inversion H; subst. apply good_update_refl. }
+  destruct (8 <=? p_extra p) eqn:Ex. { inversion H; subst. apply good_update_refl. }
+  apply Z.leb_gt in Ex.
   destruct (p_store p) eqn:Es; try discriminate;
     try (inversion H; subst; apply good_update_refl).
   all: destruct (bool_decide (p_status p = StCompleted)) eqn:E2; simpl in H; [|discriminate].
@@ -256,8 +284,12 @@ Proof.
   all: right; exists id; eexists.
   all: (split; [ rewrite ?props_anom; simpl; rewrite ?Ed; try destruct (bool_decide (p_type p = TConfig)); reflexivity |]).
   all: rewrite E; intros HP; split;
-    [ pose proof (del_funds_indiv_nokeep e id (with_stage p SFinalized (p_status p) (p_outcome p)) Hk) as Hdel;
-      pinv HP; try (exfalso; intuition congruence)
+    [ destruct HP as (H1 & H2 & H3 & H4 & H5 & H6 & H7); unfold PInv;
+      rewrite ?(del_funds_indiv_nokeep _ _ _ Hk); unfold del_funds; simpl; rewrite ?Es;
+      repeat split; intros;
+      try solve [ congruence | discriminate | lia | intuition congruence | intuition discriminate
+                | exfalso; intuition congruence
+                | apply H2; [assumption | congruence | lia] ]
     | unfold rank, del_funds; simpl; rewrite ?Es; lia ].
 Qed.
 
@@ -442,9 +474,9 @@ Qed.
 Theorem config_event_sound : forall s e id s' ev id', h_finalize s e id = Some (s', ev) -> EvConfig id' ∈ ev ->
   id' = id /\ exists p, g_props s !! id = Some p /\ p_type p = TConfig /\
     (p_store p = SPassed \/ p_store p = SFailed) /\ p_extra p < 8 /\
-    tally (p_votes p) (p_pass p) = RPassed /\ rank_of s' id = 4%nat.
+    tally (p_votes p) (p_pass p) = RPassed /\ (p_store p = SPassed -> rank_of s' id = 4%nat).
 Proof.
-  intros s e id s' ev id' H Hin. unfold h_finalize in H.
+  intros s e id s' ev id' H Hin. unfold h_finalize, fin_move in H.
   destruct (g_props s !! id) as [p|] eqn:E; [|discriminate].
   destruct (8 <=? p_extra p) eqn:Ex. { injection H as _ <-. apply elem_of_nil in Hin. destruct Hin. }
   apply Z.leb_gt in Ex.
@@ -464,15 +496,16 @@ Proof.
   all: apply elem_of_cons in Hin; destruct Hin as [Hin|Hin];
        [| apply elem_of_list_singleton in Hin; discriminate].
   all: injection Hin as ->; split; [reflexivity|]; exists p; repeat split; auto.
-  all: unfold rank_of; rewrite ?props_anom; simpl; rewrite lookup_insert; reflexivity.
+  all: intros Hsp; try congruence; unfold rank_of; rewrite ?props_anom; simpl; rewrite lookup_insert; reflexivity.
 Qed.
 
 (* finalising a finalised proposal does nothing: no event, no state change *)
 Theorem finalize_terminal_noop : forall s e id p, g_props s !! id = Some p ->
-  p_store p = SFinalized \/ p_store p = SFinFailed -> h_finalize s e id = Some (s, []).
+  p_store p = SFinalized \/ p_store p = SFinFailed \/ 8 <= p_extra p -> h_finalize s e id = Some (s, []).
 Proof.
   intros s e id p E Hs. unfold h_finalize. rewrite E.
-  destruct (8 <=? p_extra p); [reflexivity|]. destruct Hs as [-> | ->]; reflexivity.
+  destruct (8 <=? p_extra p) eqn:Ex; [reflexivity|]. apply Z.leb_gt in Ex.
+  destruct Hs as [-> | [-> | Hx]]; [reflexivity | reflexivity | lia].
 Qed.
 
 Local Transparent distribute.
@@ -521,4 +554,635 @@ Proof.
     apply Z.ltb_ge in E1, E2.
     destruct (bool_decide (p_store p = SPassed)); inversion H; subst; clear H; (split; [reflexivity|]);
       eexists; exists cur; simpl; rewrite lookup_insert; repeat split; auto; lia.
+Qed.
+
+(* ---------- expiry: only in the voting stage, only after the voting deadline (every step of every history) ---------- *)
+Definition expirable (s : state) (p : prec) : Prop :=
+  p_store p = SActive /\ p_status p = StVoting /\ p_vdl p < g_h s.
+
+(* the relation every step satisfies; it composes (exp_trans), so it also holds across the EndBlock queues *)
+Definition exp_rel (s s' : state) : Prop :=
+  g_h s' = g_h s /\
+  forall id p', g_props s' !! id = Some p' ->
+    match g_props s !! id with
+    | Some p =>
+        (p_store p <> SActive -> p_store p' <> SActive /\ (p_outcome p' = OInsufVotes -> p_outcome p = OInsufVotes)) /\
+        (p_store p = SActive -> p_outcome p' = OInsufVotes -> expirable s p /\ p_store p' <> SActive)
+    | None => p_outcome p' <> OInsufVotes
+    end.
+
+Definition exp_update (s s' : state) : Prop :=
+  g_h s' = g_h s /\
+  (g_props s' = g_props s \/
+   exists id p', g_props s' = <[id := p']> (g_props s) /\
+     match g_props s !! id with
+     | Some p =>
+        (p_store p <> SActive -> p_store p' <> SActive /\ (p_outcome p' = OInsufVotes -> p_outcome p = OInsufVotes)) /\
+        (p_store p = SActive -> p_outcome p = OInProgress -> p_outcome p' = OInsufVotes -> expirable s p /\ p_store p' <> SActive) /\
+        (p_store p' = SActive -> p_store p = SActive /\ p_outcome p' = p_outcome p)
+     | None => p_outcome p' = OInProgress
+     end).
+
+Lemma exp_rel_same s s' : g_h s' = g_h s -> g_props s' = g_props s ->
+  (forall id p, g_props s !! id = Some p -> p_store p = SActive -> p_outcome p <> OInsufVotes) -> exp_rel s s'.
+Proof.
+  intros Hh Heq Hact. split; [exact Hh|]. intros id p' Hp'. rewrite Heq in Hp'. rewrite Hp'.
+  split; [intros Hn; split; auto | intros Ha Ho; exfalso; eapply Hact; eauto].
+Qed.
+
+(* active proposals are in progress (part of the invariant) *)
+Definition ActInv (s : state) : Prop :=
+  forall id p, g_props s !! id = Some p -> p_store p = SActive -> p_outcome p = OInProgress.
+
+Lemma Inv_ActInv s : Inv s -> ActInv s.
+Proof. intros HI id p Hp Ha. destruct (HI id p Hp) as (_ & _ & _ & _ & _ & H6 & _). auto. Qed.
+
+Lemma exp_update_sound s s' : ActInv s -> exp_update s s' -> exp_rel s s'.
+Proof.
+  intros HA [Hh [Heq | (id & p' & Heq & Hm)]].
+  - apply exp_rel_same; auto. intros i p Hp Ha Ho. rewrite (HA i p Hp Ha) in Ho. discriminate.
+  - split; [exact Hh|]. intros i q Hq. rewrite Heq in Hq. destruct (decide (i = id)) as [->|Hne].
+    + rewrite lookup_insert in Hq. inversion Hq; subst.
+      destruct (g_props s !! id) as [p|] eqn:Ep; [|rewrite Hm; discriminate]. destruct Hm as (Hm1 & Hm2 & _).
+      split; [exact Hm1|]. intros Ha. apply Hm2; auto. eapply HA; eauto.
+    + rewrite lookup_insert_ne in Hq by congruence. rewrite Hq.
+      split; [intros Hn; split; auto | intros Ha Ho; exfalso; rewrite (HA i q Hq Ha) in Ho; discriminate].
+Qed.
+
+Lemma exp_update_actinv s s' : ActInv s -> exp_update s s' -> ActInv s'.
+Proof.
+  intros HA [Hh [Heq | (id & p' & Heq & Hm)]]; intros i q Hq Ha; rewrite Heq in Hq; [eauto|].
+  destruct (decide (i = id)) as [->|Hne].
+  - rewrite lookup_insert in Hq. inversion Hq; subst.
+    destruct (g_props s !! id) as [p|] eqn:Ep; [|exact Hm]. destruct Hm as (_ & _ & Hm3).
+    destruct (Hm3 Ha) as [Hpa Ho]. rewrite Ho. eapply HA; eauto.
+  - rewrite lookup_insert_ne in Hq by congruence. eauto.
+Qed.
+
+Ltac exp_solve E :=
+  right; eexists; eexists; (split; [reflexivity|]); rewrite E; unfold expirable;
+  rewrite ?af_store, ?af_outcome; simpl;
+  repeat split; intros; try congruence; try discriminate; try lia; auto.
+
+Lemma create_exp : forall s e id ty pr amt fdl vdl goal pass cv s' ev,
+  h_create s e id ty pr amt fdl vdl goal pass cv = Some (s', ev) -> exp_update s s'.
+Proof.
+  intros s e id ty pr amt fdl vdl goal pass cv s' ev H. unfold h_create in H. cbv zeta in H.
+  repeat match type of H with (if ?c then None else _) = _ =>
+    match type of c with bool => destruct c; [discriminate|] end end.
+  destruct (g_props s !! id) eqn:E; [discriminate|].
+  destruct (bal s pr - amt <? 0); [discriminate|]. inversion H; subst; clear H.
+  split; [reflexivity|]. exp_solve E.
+Qed.
+
+Lemma fund_exp : forall s e id f amt s' ev, h_fund s e id f amt = Some (s', ev) -> exp_update s s'.
+Proof.
+  intros s e id f amt s' ev H. unfold h_fund in H.
+  destruct (g_props s !! id) as [p|] eqn:E; [|discriminate].
+  destruct (bool_decide (p_store p = SActive)) eqn:E1; simpl in H; [|discriminate].
+  destruct (p_fdl p <? g_h s); [discriminate|].
+  destruct (bool_decide (p_status p = StFunding)) eqn:E2; simpl in H; [|discriminate].
+  apply bool_decide_eq_true in E1, E2.
+  destruct (bal s f - amt <? 0); [discriminate|]. inversion H; subst; clear H.
+  split; [reflexivity|].
+  destruct (p_goal p <=? amt + p_total p); exp_solve E.
+Qed.
+
+Lemma vote_exp : forall s e id v o s' ev, h_vote s e id v o = Some (s', ev) -> exp_update s s'.
+Proof.
+  intros s e id v o s' ev H. unfold h_vote in H.
+  destruct (g_props s !! id) as [p|] eqn:E; [|discriminate].
+  destruct (bool_decide (p_store p = SActive)) eqn:E1; simpl in H; [|discriminate].
+  destruct (bool_decide (p_status p = StVoting)) eqn:E2; simpl in H; [|discriminate].
+  apply bool_decide_eq_true in E1, E2.
+  destruct (p_vdl p <? g_h s); [discriminate|].
+  destruct (bool_decide (v ∈ e_vals e)); simpl in H; [|discriminate].
+  destruct (vote_update v o (p_votes p)) as [vs|] eqn:Ev; [|discriminate].
+  destruct (p_snapblk p =? g_blk s); [discriminate|].
+  inversion H; subst; clear H. split; [reflexivity|].
+  destruct (tally vs (o_pass (opts_of e (p_type p)))); exp_solve E.
+Qed.
+
+Lemma cancel_exp : forall s id pr s' ev, h_cancel s id pr = Some (s', ev) -> exp_update s s'.
+Proof.
+  intros s id pr s' ev H. unfold h_cancel in H.
+  destruct (g_props s !! id) as [p|] eqn:E; [|discriminate].
+  destruct (bool_decide (p_store p = SActive)) eqn:E1; simpl in H; [|discriminate].
+  destruct (bool_decide (p_status p = StFunding)) eqn:E2; simpl in H; [|discriminate].
+  destruct (p_fdl p <? g_h s); [discriminate|].
+  destruct (N.eqb (p_proposer p) pr); simpl in H; [|discriminate].
+  inversion H; subst; clear H. split; [reflexivity|]. exp_solve E.
+Qed.
+
+Lemma expire_exp : forall s id s' ev, h_expire s id = Some (s', ev) -> exp_update s s'.
+Proof.
+  intros s id s' ev H. unfold h_expire in H.
+  destruct (g_props s !! id) as [p|] eqn:E; [|discriminate].
+  destruct (bool_decide (p_store p = SActive)) eqn:E1; simpl in H; [|discriminate].
+  destruct (bool_decide (p_status p = StVoting)) eqn:E2; simpl in H; [|discriminate].
+  apply bool_decide_eq_true in E1, E2.
+  destruct (g_h s <=? p_vdl p) eqn:E3; [discriminate|]. apply Z.leb_gt in E3.
+  inversion H; subst; clear H. split; [reflexivity|]. exp_solve E.
+Qed.
+
+Lemma withdraw_exp : forall s id f amt ben s' ev, h_withdraw s id f amt ben = Some (s', ev) -> exp_update s s'.
+Proof.
+  intros s id f amt ben s' ev H. unfold h_withdraw in H.
+  destruct (g_props s !! id) as [p|] eqn:E; [|discriminate].
+  destruct (refundable (p_outcome p)) eqn:Er.
+  - destruct (funded_visible (g_blk s) p f); [|discriminate].
+    destruct (alookup f (p_indiv p)) as [cur|] eqn:El; [|discriminate].
+    destruct (cur - amt <? 0); [discriminate|].
+    destruct (p_total p - amt <? 0); [discriminate|].
+    inversion H; subst; clear H. split; [reflexivity|]. exp_solve E.
+    all: try match goal with Ho : p_outcome ?q = OInsufVotes |- _ => rewrite Ho in Er; discriminate end.
+  - destruct ((p_goal p <=? p_total p) || (g_h s <=? p_fdl p)) eqn:Ec; [discriminate|].
+    cbv zeta in H. simpl in H.
+    destruct (funded_visible (g_blk s) _ f) eqn:Ef; [|discriminate].
+    unfold funded_visible in Ef. simpl in Ef.
+    destruct (alookup f (p_indiv p)) as [cur|] eqn:El; [|discriminate]. simpl in H.
+    destruct (cur - amt <? 0); [discriminate|].
+    destruct (p_total p - amt <? 0); [discriminate|].
+    destruct (bool_decide (p_store p = SPassed)); inversion H; subst; clear H;
+      (split; [reflexivity|]); exp_solve E.
+Qed.
+
+Local Opaque distribute.
+
+Lemma finalize_exp : forall s e id s' ev, h_finalize s e id = Some (s', ev) -> exp_update s s'.
+Proof.
+  intros s e id s' ev H. unfold h_finalize, fin_move in H.
+  destruct (g_props s !! id) as [p|] eqn:E; [|discriminate].
+  destruct (8 <=? p_extra p). { inversion H; subst. split; [reflexivity|]. left. reflexivity. }
+  destruct (p_store p) eqn:Es; try discriminate;
+    try (inversion H; subst; split; [reflexivity|]; left; reflexivity).
+  all: destruct (bool_decide (p_status p = StCompleted)) eqn:E2; simpl in H; [|discriminate].
+  all: destruct (if p_snapblk p =? g_blk s then [] else p_votes p) as [|v0 vr] eqn:Ev; [discriminate|].
+  all: destruct (tally (p_votes p) (p_pass p)); try discriminate.
+  all: try (destruct (bool_decide (p_type p = TConfig) && bool_decide (id ∈ e_cfgfail e))).
+  all: try (destruct (distribute _ e id p _) as [[s1 paid] bad] eqn:Ed;
+            pose proof (distribute_h _ _ _ _ _ _ _ _ Ed) as Edh; apply distribute_props in Ed).
+  all: simpl in H; inversion H; subst; clear H.
+  all: (split; [ rewrite ?h_anom; simpl; rewrite ?Edh; try destruct (bool_decide (p_type p = TConfig)); reflexivity |]).
+  all: right; exists id; eexists.
+  all: (split; [ rewrite ?props_anom; simpl; rewrite ?Ed; try destruct (bool_decide (p_type p = TConfig)); reflexivity |]).
+  all: rewrite E; unfold expirable, del_funds; simpl; rewrite ?Es;
+       repeat split; intros; try congruence; try discriminate; auto.
+Qed.
+
+(* the relation the two EndBlock handlers satisfy; it composes along the queues *)
+Definition qrel (s s' : state) : Prop :=
+  g_h s' = g_h s /\
+  forall id, g_props s' !! id = g_props s !! id \/
+    exists p p', g_props s !! id = Some p /\ g_props s' !! id = Some p' /\ p_store p' <> SActive /\
+      (p_outcome p' = OInsufVotes -> p_outcome p = OInsufVotes \/ expirable s p).
+
+Lemma qrel_refl s : qrel s s.
+Proof. split; [reflexivity|]. intros id. left. reflexivity. Qed.
+
+Lemma qrel_trans s1 s2 s3 : qrel s1 s2 -> qrel s2 s3 -> qrel s1 s3.
+Proof.
+  intros [H12 R12] [H23 R23]. split; [congruence|]. intros id.
+  destruct (R12 id) as [E12 | (p1 & p2 & E1 & E2 & Hs2 & Ho2)];
+  destruct (R23 id) as [E23 | (q2 & p3 & F2 & F3 & Hs3 & Ho3)].
+  - left. congruence.
+  - right. rewrite E12 in F2. exists q2, p3. repeat split; auto.
+    intros Ho. destruct (Ho3 Ho) as [?|Hx]; [left; auto|]. right.
+    unfold expirable in *. rewrite <- H12. exact Hx.
+  - right. exists p1, p2. rewrite E23. repeat split; auto.
+  - right. rewrite E2 in F2. inversion F2; subst q2. exists p1, p3. repeat split; auto.
+    intros Ho. destruct (Ho3 Ho) as [Hiv | Hx].
+    + apply Ho2. exact Hiv.
+    + exfalso. destruct Hx as [Ha _]. congruence.
+Qed.
+
+Lemma qrel_upd s s' id p p' : g_h s' = g_h s -> g_props s !! id = Some p ->
+  g_props s' = <[id := p']> (g_props s) -> p_store p' <> SActive ->
+  (p_outcome p' = OInsufVotes -> p_outcome p = OInsufVotes \/ expirable s p) -> qrel s s'.
+Proof.
+  intros Hh E Heq Hs Ho. split; [exact Hh|]. intros i. rewrite Heq. destruct (decide (i = id)) as [->|Hne].
+  - right. exists p, p'. rewrite lookup_insert. auto.
+  - left. rewrite lookup_insert_ne by congruence. reflexivity.
+Qed.
+
+Lemma expire_qrel : forall s id s' ev, h_expire s id = Some (s', ev) -> qrel s s'.
+Proof.
+  intros s id s' ev H. unfold h_expire in H.
+  destruct (g_props s !! id) as [p|] eqn:E; [|discriminate].
+  destruct (bool_decide (p_store p = SActive)) eqn:E1; simpl in H; [|discriminate].
+  destruct (bool_decide (p_status p = StVoting)) eqn:E2; simpl in H; [|discriminate].
+  apply bool_decide_eq_true in E1, E2.
+  destruct (g_h s <=? p_vdl p) eqn:E3; [discriminate|]. apply Z.leb_gt in E3.
+  inversion H; subst; clear H.
+  eapply qrel_upd; [reflexivity | exact E | reflexivity | simpl; discriminate |].
+  intros _. right. unfold expirable. auto.
+Qed.
+
+Lemma finalize_qrel : forall s e id s' ev, h_finalize s e id = Some (s', ev) -> qrel s s'.
+Proof.
+  intros s e id s' ev H. unfold h_finalize, fin_move in H.
+  destruct (g_props s !! id) as [p|] eqn:E; [|discriminate].
+  destruct (8 <=? p_extra p). { inversion H; subst. apply qrel_refl. }
+  destruct (p_store p) eqn:Es; try discriminate;
+    try (inversion H; subst; apply qrel_refl).
+  all: destruct (bool_decide (p_status p = StCompleted)) eqn:E2; simpl in H; [|discriminate].
+  all: destruct (if p_snapblk p =? g_blk s then [] else p_votes p) as [|v0 vr] eqn:Ev; [discriminate|].
+  all: destruct (tally (p_votes p) (p_pass p)); try discriminate.
+  all: try (destruct (bool_decide (p_type p = TConfig) && bool_decide (id ∈ e_cfgfail e))).
+  all: try (destruct (distribute _ e id p _) as [[s1 paid] bad] eqn:Ed;
+            pose proof (distribute_h _ _ _ _ _ _ _ _ Ed) as Edh; apply distribute_props in Ed).
+  all: simpl in H; inversion H; subst; clear H.
+  all: eapply qrel_upd;
+    [ rewrite ?h_anom; simpl; rewrite ?Edh; try destruct (bool_decide (p_type p = TConfig)); reflexivity
+    | exact E
+    | rewrite ?props_anom; simpl; rewrite ?Ed; try destruct (bool_decide (p_type p = TConfig)); reflexivity
+    | unfold del_funds; simpl; rewrite ?Es; discriminate
+    | unfold del_funds; simpl; intros Ho; left; exact Ho ].
+Qed.
+
+Lemma run_queue_qrel : forall (h : state -> N -> hres) q s,
+  (forall st id st' ev, h st id = Some (st', ev) -> qrel st st') -> qrel s (run_queue h q s).1.
+Proof.
+  intros h q s Hh. unfold run_queue.
+  assert (G : forall q acc, qrel s acc.1 ->
+            qrel s (fold_left (fun acc id => match h acc.1 id with
+                                             | Some (s', ev) => (s', acc.2 ++ ev)
+                                             | None => acc end) q acc).1).
+  { induction q0 as [|id q0 IH]; intros acc Hacc; simpl; [exact Hacc|].
+    apply IH. destruct (h acc.1 id) as [[st' ev]|] eqn:Eh; [|exact Hacc].
+    simpl. eapply qrel_trans; [exact Hacc|]. eapply Hh; eauto. }
+  apply G. simpl. apply qrel_refl.
+Qed.
+
+Lemma end_block_qrel s e : qrel s (end_block s e).1.
+Proof.
+  unfold end_block.
+  destruct (run_queue h_expire (g_qexp s) s) as [s1 ev1] eqn:E1.
+  destruct (run_queue (fun st id => h_finalize st e id) (g_qfin s) s1) as [s2 ev2] eqn:E2.
+  simpl. eapply qrel_trans; [|eapply qrel_trans].
+  - pose proof (run_queue_qrel h_expire (g_qexp s) s) as H. rewrite E1 in H. apply H.
+    intros; eapply expire_qrel; eauto.
+  - pose proof (run_queue_qrel (fun st id => h_finalize st e id) (g_qfin s) s1) as H. rewrite E2 in H. apply H.
+    intros; eapply finalize_qrel; eauto.
+  - split; [reflexivity|]. intros id. left. reflexivity.
+Qed.
+
+(* what one step may do about expiry *)
+Definition exp_step_ok (s s' : state) : Prop :=
+  forall id p', g_props s' !! id = Some p' -> p_outcome p' = OInsufVotes ->
+    exists p, g_props s !! id = Some p /\ (p_outcome p = OInsufVotes \/ expirable s p).
+
+Lemma exp_rel_step_ok s s' : exp_rel s s' -> exp_step_ok s s'.
+Proof.
+  intros [_ R] id p' Hp' Ho. specialize (R id p' Hp').
+  destruct (g_props s !! id) as [p|]; [|congruence]. exists p. split; [reflexivity|].
+  destruct R as [RA RB]. destruct (decide (p_store p = SActive)) as [Ha|Hn].
+  - right. apply RB; auto.
+  - left. apply RA; auto.
+Qed.
+
+Lemma qrel_step_ok s s' : qrel s s' -> exp_step_ok s s'.
+Proof.
+  intros [_ R] id p' Hp' Ho. destruct (R id) as [E | (p & q & E1 & E2 & _ & H)].
+  - exists p'. split; [congruence|]. left. exact Ho.
+  - rewrite E2 in Hp'. inversion Hp'; subst q. exists p. auto.
+Qed.
+
+Lemma qrel_actinv s s' : qrel s s' -> ActInv s -> ActInv s'.
+Proof.
+  intros [_ R] HA id p' Hp' Ha. destruct (R id) as [E | (p & q & E1 & E2 & Hs & _)].
+  - rewrite E in Hp'. eauto.
+  - rewrite E2 in Hp'. inversion Hp'; subst q. congruence.
+Qed.
+
+Lemma step_exp s t : ActInv s -> exp_step_ok s (step s t).1.1 /\ ActInv (step s t).1.1.
+Proof.
+  intros HA. unfold step.
+  assert (Hrefl : exp_step_ok s s).
+  { intros id p' Hp' Ho. exists p'. auto. }
+  assert (Hc : forall r, (forall s1 ev, r = Some (s1, ev) -> exp_update s s1) ->
+               let s' := (match charge r (t_payer t) (t_fee t) with
+                          | Some (s', ev) => (s', true, ev) | None => (s, false, []) end).1.1 in
+               exp_step_ok s s' /\ ActInv s').
+  { intros r Hr. destruct (charge r (t_payer t) (t_fee t)) as [[s' ev]|] eqn:Ec; simpl; [|auto].
+    apply charge_props in Ec. destruct Ec as (s1 & -> & Heq).
+    specialize (Hr s1 ev eq_refl).
+    pose proof (exp_update_sound s s1 HA Hr) as R1. pose proof (exp_update_actinv s s1 HA Hr) as A1.
+    split.
+    - intros id p' Hp' Ho. rewrite Heq in Hp'. eapply exp_rel_step_ok; eauto.
+    - intros id p Hp Ha. rewrite Heq in Hp. eauto. }
+  assert (Hn : forall r : hres, (forall s1 ev, r = Some (s1, ev) -> exp_update s s1) ->
+               let s' := (match r with Some (s', ev) => (s', true, ev) | None => (s, false, @nil event) end).1.1 in
+               exp_step_ok s s' /\ ActInv s').
+  { intros r Hr. destruct r as [[s' ev]|]; simpl; [|auto]. specialize (Hr s' ev eq_refl).
+    split; [apply exp_rel_step_ok, exp_update_sound; auto | eapply exp_update_actinv; eauto]. }
+  destruct (t_op t) eqn:Eo.
+  - simpl. split; [|exact HA]. intros id p' Hp' Ho. exists p'. auto.
+  - apply Hc. intros; eapply create_exp; eauto.
+  - apply Hc. intros; eapply fund_exp; eauto.
+  - apply Hc. intros; eapply vote_exp; eauto.
+  - apply Hc. intros; eapply cancel_exp; eauto.
+  - apply Hc. intros; eapply withdraw_exp; eauto.
+  - apply (Hn (h_expire s id)). intros; eapply expire_exp; eauto.
+  - apply (Hn (h_finalize s (t_env t) id)). intros; eapply finalize_exp; eauto.
+  - pose proof (end_block_qrel s (t_env t)) as Q. destruct (end_block s (t_env t)) as [s' ev]. simpl in *.
+    split; [apply qrel_step_ok; exact Q | eapply qrel_actinv; eauto].
+  - apply Hc. intros s1 ev H. inversion H; subst. split; [reflexivity|]. left. reflexivity.
+Qed.
+
+Lemma run_actinv : forall ts s, ActInv s -> ActInv (run s ts).1.
+Proof.
+  induction ts as [|t ts IH]; intros s HA; simpl; [exact HA|].
+  pose proof (step_exp s t HA) as [_ A1]. destruct (step s t) as [[s1 ok] ev]. simpl in A1.
+  specialize (IH s1 A1). destruct (run s1 ts) as [s2 ev2]. exact IH.
+Qed.
+
+Lemma ActInv_init : ActInv init.
+Proof. intros id p H. unfold init in H. simpl in H. rewrite lookup_empty in H. discriminate. Qed.
+
+(* a proposal gets the outcome insufficientVotes only in its voting stage and only after its voting deadline:
+   for every history, every next operation (any kind, any sender, any height, any inputs) and every proposal *)
+Theorem expiry_after_deadline : forall ts t id p',
+  let s := (run init ts).1 in
+  g_props (step s t).1.1 !! id = Some p' -> p_outcome p' = OInsufVotes ->
+  exists p, g_props s !! id = Some p /\
+    (p_outcome p = OInsufVotes \/ (p_store p = SActive /\ p_status p = StVoting /\ p_vdl p < g_h s)).
+Proof.
+  intros ts t id p' s Hp' Ho.
+  destruct (step_exp s t (run_actinv ts init ActInv_init)) as [H _]. exact (H id p' Hp' Ho).
+Qed.
+
+(* a cancelled / goal-missed proposal refunds a funder's whole record as long as the recorded total covers it *)
+Theorem refund_available : forall s id f ben p cur,
+  g_props s !! id = Some p -> refundable (p_outcome p) = true -> funded_visible (g_blk s) p f = true ->
+  alookup f (p_indiv p) = Some cur -> cur <= p_total p ->
+  exists s', h_withdraw s id f cur ben = Some (s', [EvRefund id f ben cur]).
+Proof.
+  intros s id f ben p cur E Hr Hv Hl Ht. unfold h_withdraw. rewrite E, Hr, Hv, Hl.
+  replace (cur - cur <? 0) with false by (symmetry; apply Z.ltb_ge; lia).
+  replace (p_total p - cur <? 0) with false by (symmetry; apply Z.ltb_ge; lia).
+  eexists. reflexivity.
+Qed.
+
+(* a configuration change is applied only for a proposal in the passed store — unless the proposal sits in the
+   failed store with votes that pass under its own percentage *)
+Theorem config_only_passed_partial : forall s e id s' ev id' p,
+  h_finalize s e id = Some (s', ev) -> EvConfig id' ∈ ev -> g_props s !! id = Some p ->
+  trig_failed_but_passing p = false ->
+  id' = id /\ p_store p = SPassed /\ p_outcome p = p_outcome p /\ rank_of s' id = 4%nat.
+Proof.
+  intros s e id s' ev id' p H Hin E Ht.
+  destruct (config_event_sound s e id s' ev id' H Hin) as (-> & q & Eq & Hty & Hst & Hx & Htal & Hr).
+  rewrite E in Eq. inversion Eq; subst q.
+  assert (Hp : p_store p = SPassed).
+  { destruct Hst as [Hs|Hs]; [exact Hs|]. exfalso. unfold trig_failed_but_passing in Ht.
+    rewrite (bool_decide_eq_true_2 _ Hs), (bool_decide_eq_true_2 _ Htal) in Ht. discriminate. }
+  repeat split; auto.
+Qed.
+
+(* ---------- funds: the recorded total is the sum of non-negative funder records, along every history of
+   non-negative contributions in which DeleteAllFunds reaches every record ---------- *)
+Definition nn (kv : N * Z) : Prop := 0 <= kv.2.
+Definition FInv (p : prec) : Prop := Forall nn (p_indiv p) /\ p_total p = asum (p_indiv p).
+Definition FundsInv (s : state) : Prop := forall id p, g_props s !! id = Some p -> FInv p.
+
+Lemma asum_aupd f d l : asum (aupd f d l) = asum l + d.
+Proof.
+  induction l as [|[k v] l IH]; simpl; [lia|]. destruct (N.eqb f k); simpl; [lia|]. unfold asum in *. simpl. lia.
+Qed.
+
+Lemma aupd_nn_add f d l : Forall nn l -> 0 <= d -> Forall nn (aupd f d l).
+Proof.
+  intros H Hd. induction l as [|[k v] l IH]; simpl.
+  - constructor; [unfold nn; simpl; lia|constructor].
+  - inversion H as [|? ? Hv Hl]; subst. destruct (N.eqb f k).
+    + constructor; [unfold nn in *; simpl in *; lia | exact Hl].
+    + constructor; [exact Hv | apply IH; exact Hl].
+Qed.
+
+Lemma aupd_nn_sub f a c l : Forall nn l -> alookup f l = Some c -> 0 <= c - a -> Forall nn (aupd f (- a) l).
+Proof.
+  intros H Hl Hc. induction l as [|[k v] l IH]; simpl in *; [discriminate|].
+  inversion H as [|? ? Hv Hr]; subst. destruct (N.eqb f k).
+  - injection Hl as ->. constructor; [unfold nn; simpl; lia | exact Hr].
+  - constructor; [exact Hv | apply IH; auto].
+Qed.
+
+Lemma alookup_le_asum f c l : Forall nn l -> alookup f l = Some c -> c <= asum l.
+Proof.
+  intros H Hl. induction l as [|[k v] l IH]; simpl in *; [discriminate|].
+  inversion H as [|? ? Hv Hr]; subst. unfold nn in Hv; simpl in Hv.
+  assert (0 <= asum l). { clear -Hr. induction Hr as [|x l Hx _ IH']; unfold asum in *; simpl; [lia|]. unfold nn in Hx. lia. }
+  destruct (N.eqb f k); unfold asum in *; simpl.
+  - injection Hl as ->. lia.
+  - specialize (IH Hr Hl). lia.
+Qed.
+
+Definition fupd (s s' : state) : Prop :=
+  g_props s' = g_props s \/
+  exists id p', g_props s' = <[id := p']> (g_props s) /\
+    match g_props s !! id with Some p => FInv p -> FInv p' | None => FInv p' end.
+
+Lemma fupd_sound s s' : fupd s s' -> FundsInv s -> FundsInv s'.
+Proof.
+  intros [Heq | (id & p' & Heq & Hm)] HI i p Hp; rewrite Heq in Hp; [eauto|].
+  destruct (decide (i = id)) as [->|Hne].
+  - rewrite lookup_insert in Hp. inversion Hp; subst.
+    destruct (g_props s !! id) as [p0|] eqn:E; [apply Hm; eauto | exact Hm].
+  - rewrite lookup_insert_ne in Hp by congruence. eauto.
+Qed.
+
+Lemma FInv_add_funds b p f a : FInv p -> 0 <= a -> FInv (add_funds b p f a).
+Proof.
+  intros [Hn Ht] Ha. unfold FInv. rewrite af_indiv, af_total, asum_aupd. split; [apply aupd_nn_add; auto | lia].
+Qed.
+
+Lemma create_fupd : forall s e id ty pr amt fdl vdl goal pass cv s' ev, 0 <= amt ->
+  h_create s e id ty pr amt fdl vdl goal pass cv = Some (s', ev) -> fupd s s'.
+Proof.
+  intros s e id ty pr amt fdl vdl goal pass cv s' ev Ha H. unfold h_create in H. cbv zeta in H.
+  repeat match type of H with (if ?c then None else _) = _ =>
+    match type of c with bool => destruct c; [discriminate|] end end.
+  destruct (g_props s !! id) eqn:E; [discriminate|].
+  destruct (bal s pr - amt <? 0); [discriminate|]. inversion H; subst; clear H.
+  right. exists id. eexists. split; [reflexivity|]. rewrite E.
+  apply FInv_add_funds; [|exact Ha]. split; [constructor | reflexivity].
+Qed.
+
+Lemma fund_fupd : forall s e id f amt s' ev, 0 <= amt -> h_fund s e id f amt = Some (s', ev) -> fupd s s'.
+Proof.
+  intros s e id f amt s' ev Ha H. unfold h_fund in H.
+  destruct (g_props s !! id) as [p|] eqn:E; [|discriminate].
+  destruct (bool_decide (p_store p = SActive)); simpl in H; [|discriminate].
+  destruct (p_fdl p <? g_h s); [discriminate|].
+  destruct (bool_decide (p_status p = StFunding)); simpl in H; [|discriminate].
+  destruct (bal s f - amt <? 0); [discriminate|]. inversion H; subst; clear H.
+  right. exists id. eexists. split; [reflexivity|]. rewrite E. intros HF.
+  apply FInv_add_funds; [|exact Ha]. destruct (p_goal p <=? amt + p_total p); exact HF.
+Qed.
+
+Lemma stage_only_fupd s s' id p p' : g_props s !! id = Some p -> g_props s' = <[id := p']> (g_props s) ->
+  p_indiv p' = p_indiv p -> p_total p' = p_total p -> fupd s s'.
+Proof.
+  intros E Heq Hi Ht. right. exists id, p'. split; [exact Heq|]. rewrite E. unfold FInv. rewrite Hi, Ht. auto.
+Qed.
+
+Lemma vote_fupd : forall s e id v o s' ev, h_vote s e id v o = Some (s', ev) -> fupd s s'.
+Proof.
+  intros s e id v o s' ev H. unfold h_vote in H.
+  destruct (g_props s !! id) as [p|] eqn:E; [|discriminate].
+  destruct (bool_decide (p_store p = SActive)); simpl in H; [|discriminate].
+  destruct (bool_decide (p_status p = StVoting)); simpl in H; [|discriminate].
+  destruct (p_vdl p <? g_h s); [discriminate|].
+  destruct (bool_decide (v ∈ e_vals e)); simpl in H; [|discriminate].
+  destruct (vote_update v o (p_votes p)) as [vs|]; [|discriminate].
+  destruct (p_snapblk p =? g_blk s); [discriminate|].
+  inversion H; subst; clear H.
+  eapply stage_only_fupd; [exact E | reflexivity | |]; destruct (tally vs _); reflexivity.
+Qed.
+
+Lemma cancel_fupd : forall s id pr s' ev, h_cancel s id pr = Some (s', ev) -> fupd s s'.
+Proof.
+  intros s id pr s' ev H. unfold h_cancel in H.
+  destruct (g_props s !! id) as [p|] eqn:E; [|discriminate].
+  destruct (bool_decide (p_store p = SActive)); simpl in H; [|discriminate].
+  destruct (bool_decide (p_status p = StFunding)); simpl in H; [|discriminate].
+  destruct (p_fdl p <? g_h s); [discriminate|].
+  destruct (N.eqb (p_proposer p) pr); simpl in H; [|discriminate].
+  inversion H; subst; clear H. eapply stage_only_fupd; [exact E | reflexivity | reflexivity | reflexivity].
+Qed.
+
+Lemma expire_fupd : forall s id s' ev, h_expire s id = Some (s', ev) -> fupd s s'.
+Proof.
+  intros s id s' ev H. unfold h_expire in H.
+  destruct (g_props s !! id) as [p|] eqn:E; [|discriminate].
+  destruct (bool_decide (p_store p = SActive)); simpl in H; [|discriminate].
+  destruct (bool_decide (p_status p = StVoting)); simpl in H; [|discriminate].
+  destruct (g_h s <=? p_vdl p); [discriminate|].
+  inversion H; subst; clear H. eapply stage_only_fupd; [exact E | reflexivity | reflexivity | reflexivity].
+Qed.
+
+Lemma withdraw_fupd : forall s id f amt ben s' ev, h_withdraw s id f amt ben = Some (s', ev) -> fupd s s'.
+Proof.
+  intros s id f amt ben s' ev H. unfold h_withdraw in H.
+  destruct (g_props s !! id) as [p|] eqn:E; [|discriminate].
+  destruct (refundable (p_outcome p)) eqn:Er.
+  - destruct (funded_visible (g_blk s) p f); [|discriminate].
+    destruct (alookup f (p_indiv p)) as [cur|] eqn:El; [|discriminate].
+    destruct (cur - amt <? 0) eqn:E1; [discriminate|]. apply Z.ltb_ge in E1.
+    destruct (p_total p - amt <? 0); [discriminate|].
+    inversion H; subst; clear H.
+    right. exists id. eexists. split; [reflexivity|]. rewrite E. intros [Hn Ht]. unfold FInv. simpl.
+    rewrite asum_aupd. split; [eapply aupd_nn_sub; eauto | lia].
+  - destruct ((p_goal p <=? p_total p) || (g_h s <=? p_fdl p)); [discriminate|].
+    cbv zeta in H. simpl in H.
+    destruct (funded_visible (g_blk s) _ f) eqn:Ef; [|discriminate].
+    unfold funded_visible in Ef. simpl in Ef.
+    destruct (alookup f (p_indiv p)) as [cur|] eqn:El; [|discriminate]. simpl in H.
+    destruct (cur - amt <? 0) eqn:E1; [discriminate|]. apply Z.ltb_ge in E1.
+    destruct (p_total p - amt <? 0); [discriminate|].
+    destruct (bool_decide (p_store p = SPassed)); inversion H; subst; clear H;
+      (right; exists id; eexists; (split; [reflexivity|]); rewrite E; intros [Hn Ht]; unfold FInv; simpl;
+       rewrite asum_aupd; split; [eapply aupd_nn_sub; eauto | lia]).
+Qed.
+
+Lemma finalize_fupd : forall s e id s' ev, e_keep e = [] -> h_finalize s e id = Some (s', ev) -> fupd s s'.
+Proof.
+  intros s e id s' ev Hk H. unfold h_finalize, fin_move in H.
+  destruct (g_props s !! id) as [p|] eqn:E; [|discriminate].
+  destruct (8 <=? p_extra p). { inversion H; subst. left. reflexivity. }
+  destruct (p_store p) eqn:Es; try discriminate;
+    try (inversion H; subst; left; reflexivity).
+  all: destruct (bool_decide (p_status p = StCompleted)) eqn:E2; simpl in H; [|discriminate].
+  all: destruct (if p_snapblk p =? g_blk s then [] else p_votes p) as [|v0 vr] eqn:Ev; [discriminate|].
+  all: destruct (tally (p_votes p) (p_pass p)); try discriminate.
+  all: try (destruct (bool_decide (p_type p = TConfig) && bool_decide (id ∈ e_cfgfail e))).
+  all: try (destruct (distribute _ e id p _) as [[s1 paid] bad] eqn:Ed; apply distribute_props in Ed).
+  all: simpl in H; inversion H; subst; clear H.
+  all: right; exists id; eexists.
+  all: (split; [ rewrite ?props_anom; simpl; rewrite ?Ed; try destruct (bool_decide (p_type p = TConfig)); reflexivity |]).
+  all: rewrite E; intros [Hn Ht]; unfold FInv;
+       rewrite ?(del_funds_indiv_nokeep _ _ _ Hk); unfold del_funds; simpl;
+       (split; [ first [constructor | exact Hn] | first [reflexivity | exact Ht] ]).
+Qed.
+
+Definition nonneg_op (t : txop) : Prop :=
+  match t_op t with
+  | OCreate _ _ _ amt _ _ _ _ _ => 0 <= amt
+  | OFund _ _ amt => 0 <= amt
+  | _ => True
+  end.
+
+Lemma run_queue_funds : forall (h : state -> N -> hres) q s,
+  (forall st id st' ev, h st id = Some (st', ev) -> fupd st st') -> FundsInv s -> FundsInv (run_queue h q s).1.
+Proof.
+  intros h q s Hh. unfold run_queue.
+  assert (G : forall q acc, FundsInv acc.1 ->
+            FundsInv (fold_left (fun acc id => match h acc.1 id with
+                                               | Some (s', ev) => (s', acc.2 ++ ev)
+                                               | None => acc end) q acc).1).
+  { induction q0 as [|id q0 IH]; intros acc Hacc; simpl; [exact Hacc|].
+    apply IH. destruct (h acc.1 id) as [[st' ev]|] eqn:Eh; [|exact Hacc].
+    simpl. eapply fupd_sound; [eapply Hh; eauto | exact Hacc]. }
+  intros HI. apply G. exact HI.
+Qed.
+
+Lemma step_funds s t : nokeep t -> nonneg_op t -> FundsInv s -> FundsInv (step s t).1.1.
+Proof.
+  intros Hk Hn HI. unfold step.
+  assert (Hc : forall r, (forall s1 ev, r = Some (s1, ev) -> fupd s s1) ->
+               FundsInv (match charge r (t_payer t) (t_fee t) with
+                         | Some (s', ev) => (s', true, ev) | None => (s, false, []) end).1.1).
+  { intros r Hr. destruct (charge r (t_payer t) (t_fee t)) as [[s' ev]|] eqn:Ec; simpl; [|exact HI].
+    apply charge_props in Ec. destruct Ec as (s1 & -> & Heq).
+    intros i p Hp. rewrite Heq in Hp. eapply (fupd_sound s s1); eauto. }
+  unfold nonneg_op in Hn. destruct (t_op t) eqn:Eo.
+  - exact HI.
+  - apply Hc. intros; eapply create_fupd; eauto.
+  - apply Hc. intros; eapply fund_fupd; eauto.
+  - apply Hc. intros; eapply vote_fupd; eauto.
+  - apply Hc. intros; eapply cancel_fupd; eauto.
+  - apply Hc. intros; eapply withdraw_fupd; eauto.
+  - destruct (h_expire s id) as [[s' ev]|] eqn:Eh; simpl; [|exact HI].
+    eapply fupd_sound; [eapply expire_fupd; eauto | exact HI].
+  - destruct (h_finalize s (t_env t) id) as [[s' ev]|] eqn:Eh; simpl; [|exact HI].
+    eapply fupd_sound; [eapply finalize_fupd; eauto | exact HI].
+  - unfold end_block.
+    destruct (run_queue h_expire (g_qexp s) s) as [s1 ev1] eqn:E1.
+    destruct (run_queue (fun st id => h_finalize st (t_env t) id) (g_qfin s) s1) as [s2 ev2] eqn:E2.
+    simpl.
+    pose proof (run_queue_funds h_expire (g_qexp s) s (fun st i st' ev H => expire_fupd st i st' ev H) HI) as Q1.
+    rewrite E1 in Q1. simpl in Q1.
+    pose proof (run_queue_funds (fun st id => h_finalize st (t_env t) id) (g_qfin s) s1
+                 (fun st i st' ev H => finalize_fupd st (t_env t) i st' ev Hk H) Q1) as Q2.
+    rewrite E2 in Q2. exact Q2.
+  - apply Hc. intros s1 ev H. inversion H; subst. left. reflexivity.
+Qed.
+
+Lemma run_funds : forall ts s, Forall nokeep ts -> Forall nonneg_op ts -> FundsInv s -> FundsInv (run s ts).1.
+Proof.
+  induction ts as [|t ts IH]; intros s Hk Hn HI; simpl; [exact HI|].
+  inversion Hk as [|? ? Hk1 Hk2]; subst. inversion Hn as [|? ? Hn1 Hn2]; subst.
+  pose proof (step_funds s t Hk1 Hn1 HI) as S1.
+  destruct (step s t) as [[s1 ok] ev]. simpl in S1.
+  specialize (IH s1 Hk2 Hn2 S1). destruct (run s1 ts) as [s2 ev2]. exact IH.
+Qed.
+
+(* "returned in full", history level: after any history of non-negative contributions in which every distribution
+   deleted every funder record, a funder of a cancelled / goal-missed proposal whose record is committed can
+   withdraw the whole record *)
+Theorem refund_in_full : forall ts id f ben p cur,
+  Forall nokeep ts -> Forall nonneg_op ts ->
+  let s := (run init ts).1 in
+  g_props s !! id = Some p -> refundable (p_outcome p) = true -> funded_visible (g_blk s) p f = true ->
+  alookup f (p_indiv p) = Some cur ->
+  0 <= cur /\ exists s', h_withdraw s id f cur ben = Some (s', [EvRefund id f ben cur]).
+Proof.
+  intros ts id f ben p cur Hk Hn s E Hr Hv Hl.
+  assert (HF : FundsInv s).
+  { apply run_funds; auto. intros i q H. unfold init in H. simpl in H. rewrite lookup_empty in H. discriminate. }
+  destruct (HF id p E) as [Hnn Ht]. split.
+  - clear -Hnn Hl. induction (p_indiv p) as [|[k v] l IH]; simpl in Hl; [discriminate|].
+    inversion Hnn as [|? ? Hv Hr]; subst. destruct (N.eqb f k); [injection Hl as <-; exact Hv | auto].
+  - eapply refund_available; eauto. rewrite Ht. eapply alookup_le_asum; eauto.
 Qed.
